@@ -50,6 +50,8 @@ def run(tier, seed):
     mc = vp.tlc("EnginePhase", cfg="EnginePhase_fixed.cfg" if fixed else "EnginePhase_asis.cfg",
                 workers=4, timeout=600, check_ok=False)
     live = vp.tlc("EnginePhase", cfg="EnginePhase_live.cfg", workers=2, timeout=300, check_ok=False)
+    # the repaired order at larger bounds: 4 readers x 2 queries, 3 sessions each committed or dropped
+    big_mc = vp.tlc("EnginePhase", cfg="EnginePhase_fixed_big.cfg", workers=8, timeout=900, check_ok=False) if fixed else None
     model_holds = mc["ok"]
     # schedules of the matching variant
     scheds, g = gen_schedules("EnginePhase_genfixed.cfg" if fixed else "EnginePhase_gen.cfg")
@@ -161,14 +163,17 @@ CHECK_DEADLOCK FALSE
                            "events": run_events[:80]})
     rc = verdict.finish()
     coverage = {
-        "states": mc["distinct"] + live["distinct"] + g["distinct"] + states,
+        "states": mc["distinct"] + live["distinct"] + g["distinct"] + states + (big_mc["distinct"] if big_mc else 0),
         "transitions": mc["generated"] + live["generated"] + g["generated"] + transitions,
         "traces_validated_against_impl": len(chosen) + len(big) + len(traces) - 1,
         "samples": [{"schedule": chosen[0]}, {"schedule": chosen[-1]}],
         "code_variant": variant,
         "model": {"config": "EnginePhase_fixed.cfg" if fixed else "EnginePhase_asis.cfg",
                   "ReaderSeesSnap_holds": model_holds, "distinct_states": mc["distinct"],
-                  "liveness_Progress_holds": live["ok"], "liveness_states": live["distinct"]},
+                  "liveness_Progress_holds": live["ok"], "liveness_states": live["distinct"],
+                  "larger_bounds": None if big_mc is None else {
+                      "config": "EnginePhase_fixed_big.cfg (4 readers x 2 queries, 3 sessions, committed or dropped)",
+                      "invariants_hold": big_mc["ok"], "distinct_states": big_mc["distinct"]}},
         "schedules_exhaustive_2readers_1session": len(scheds),
         "schedules_exhaustive_1reader_2sessions": len(two),
         "schedules_with_a_dropped_session": sum(1 for b in chosen + big if any(x["s"] == "drop_session" for x in b["steps"])),
